@@ -212,8 +212,8 @@ Same(t, v, w) ==
          [] cl = "bit" -> w.k = "bit" /\ w.x = v.x
          [] cl \in {"money", "dec"} -> w.k = "dec" /\ Canon(w.dig) = Canon(v.dig) /\ (w.neg = v.neg \/ IsZero(NatLE(v.dig)))
          [] cl = "date" -> w.k = "tm" /\ <<w.y, w.mo, w.d>> = <<v.y, v.mo, v.d>>
-         \* a tick is 3333.3 microseconds, a minute 60 seconds; time of day only for TIME
-         [] cl = "time" -> w.k = "tm" /\ SameTod(v, w, 3334, IF <<w.y, w.mo, w.d>> = <<1, 1, 2>> THEN 1 ELSE 0)
+         \* a tick is 3333.3 microseconds, a minute 60 seconds; the time of day only for TIME
+         [] cl = "time" -> w.k = "tm" /\ SameTod(v, w, 3334, 0)      \* a time of day has no next day to be carried into
          [] cl = "dt" -> w.k = "tm" /\ SameTod(v, w, 3334, DayDiff(v, w))
          [] cl = "sdt" -> w.k = "tm" /\ SameTod(v, w, 60000000, DayDiff(v, w))
          [] cl = "dtn" -> w.k = "tm" /\ SameTod(v, w, 60000000, DayDiff(v, w))        \* refined by the length in the trace spec
